@@ -648,8 +648,8 @@ MUTANTS = [
     dict(name="original F-C17b: float sort key for data without a channel field", file="strax/processing/general.py", only="sort_wide",
          old="        channel = np.ones(len(x), dtype=np.int64)", new="        channel = np.ones(len(x))"),
     dict(name="original F-C17: endtime multiplies length by dt in int32", file="strax/processing/general.py", only="endtime",
-         old='        return x["time"] + x["length"].astype(np.int64) * x["dt"]\n\n\n# Jitting',
-         new='        return x["time"] + x["length"] * x["dt"]\n\n\n# Jitting'),
+         old="            length = length.astype(np.int64)\n        else:\n            length = np.int64(length)\n",
+         new="            pass\n"),
     dict(name="containment uses strict end", file="strax/processing/general.py", only="contain,split_contain",
          old="        if b_starts[b_i] <= a_starts[a_i] and a_ends[a_i] <= b_ends[b_i]:",
          new="        if b_starts[b_i] <= a_starts[a_i] and a_ends[a_i] < b_ends[b_i]:"),
